@@ -290,7 +290,10 @@ pub fn for_each_case(seed: &Seed, unit: &Unit, mut f: impl FnMut(u64, usize, Dev
         UnitKind::K1 { lo, hi } => {
             let n = seed.data.len();
             let mut atoms = vec![];
-            if lo == 0 {
+            if lo == 0 && seed.class == "synth" && seed.pos_limit == 0 {
+                // enumerating drivers: the seed is only a selector, run it once
+                atoms.push(Atom::None);
+            } else if lo == 0 {
                 header_atoms(&mut atoms);
                 for t in &seed.extra_trunc {
                     atoms.push(Atom::Trunc(*t));
@@ -490,7 +493,16 @@ pub fn run_case(
 ) -> Result<CaseOutcome, Found> {
     let mut w = Walker::new(b.horizon, b.max_depth);
     drivers::take_overrun();
+    drivers::take_driver_panic();
     let r = vcore::guard(|| exec(seed, bytes, &seed.ctx, cfg, &mut w));
+    let mut sub_case = String::new();
+    let r = match (r, drivers::take_driver_panic()) {
+        (Ok(()), Some((p, sc))) => {
+            sub_case = format!(" [sub-case {sc}]");
+            Err(p)
+        }
+        (r, _) => r,
+    };
     match r {
         Ok(()) => {
             if let Some(o) = drivers::take_overrun() {
@@ -522,7 +534,7 @@ pub fn run_case(
             Err((
                 kind.into(),
                 format!("{} {} fn={}: {}", kind, site_of(&p), fn_of(&p), p.kind()),
-                format!("{} at {}:{} — {}", kind, p.file, p.line, p.message),
+                format!("{} at {}:{} — {}{}", kind, p.file, p.line, p.message, sub_case),
             ))
         }
     }
